@@ -9,7 +9,11 @@ import Mahotas.Proofs.C16
 import Mahotas.Proofs.C16Otsu
 import Mahotas.Proofs.C16Rc
 import Mahotas.Proofs.C16Zeros
-open Mahotas Mahotas.C16
+import Mahotas.Proofs.C16Round
+import Mahotas.Proofs.C16Degenerate
+import Mahotas.Proofs.C16RcRound
+import Mahotas.Proofs.C05Binary64
+open Mahotas Mahotas.C16 Mahotas.C05
 
 /-- **soft_threshold = the statement (integers).** For `tval ≥ 0` the three numpy statements
 `f*(|f|>t); f -= t*(f>t); f += t*(f<-t)` compute, element by element, `f − t` above `t`, `f + t`
@@ -206,6 +210,235 @@ theorem C16_otsu_two_level (img : List Nat) (ignoreZeros : Bool) (a b : Nat) (ha
   · subst e; exact Nat.not_lt.2 h1
   · subst e; exact h2
 
+/-! ### round 4: the loop step by step, rounding, degenerate inputs, `circle_se` -/
+
+/-- **σ computed by the loop = the between-class variance at every step T.** For every histogram
+with at least two bins and a pixel above level 0 (otherwise `otsu` returns 0 before the loop) and for
+EVERY arithmetic instance, `otsuGen` is "the first strict maximum (`otsuPick`) of the list of pairs
+`(T, sigma_between)` that the loop computes (`otsuTraceOf`), starting from the value computed for
+`T = 0`"; over the exact rationals that starting value is `σ(0)`, every pair `(T, s)` of the list has
+`s = σ(T)` — the single-pass update of the two running means reproduces the between-class variance
+`n_B n_O (μ_B − μ_O)²` of the definition at every step — and the list visits every level `T ≥ 1` with
+both classes occupied (the others have `σ = 0`). -/
+theorem C16_otsu_sigma_stepwise (hist : List Nat) (hn : 2 ≤ hist.length) (hH : sumL (hist.drop 1) ≠ 0) :
+    (∀ {α : Type} [Add α] [Sub α] [Mul α] [Div α] [LT α] [DecidableLT α] (cast : Nat → α),
+      otsuGen cast hist = otsuPick (otsuTraceOf cast hist)
+        (cast (nBOf hist 0) * cast (nOOf hist 0) *
+          (cast 0 - cast (sumL (weighted hist)) / cast (sumL (hist.drop 1))) *
+          (cast 0 - cast (sumL (weighted hist)) / cast (sumL (hist.drop 1)))) 0) ∧
+    ratCast (nBOf hist 0) * ratCast (nOOf hist 0) *
+          (ratCast 0 - ratCast (sumL (weighted hist)) / ratCast (sumL (hist.drop 1))) *
+          (ratCast 0 - ratCast (sumL (weighted hist)) / ratCast (sumL (hist.drop 1))) = otsuSigma hist 0 ∧
+    (∀ p ∈ otsuTraceOf ratCast hist, p.2 = otsuSigma hist p.1) ∧
+    (∀ T, 1 ≤ T → T < hist.length → nBOf hist T ≠ 0 → nOOf hist T ≠ 0 →
+      ∃ s, (T, s) ∈ otsuTraceOf ratCast hist) :=
+  otsu_sigma_stepwise hist hn hH
+
+/-- **Floating-point error bound for every `sigma_between` of the loop.** Run the same generic loop
+in rounded arithmetic (`Rd rnd`: every `+ − × ÷` and every int→double conversion followed by `rnd`)
+for ANY `rnd` satisfying the `Rounding` interface (monotone, relative error ≤ 2^-53, integers up to
+2^53 exact — binary64 round-to-nearest `rne53` in particular). Assume `N² ≤ 2^53` (`N` = number of
+counted pixels, so `N < 2^26.5`) and first moment `Fn = Σ i·h[i] ≤ 2^53`, and let `E t` be any budget
+that starts at `≥ u·Fn`-level accuracy of the two running means, is monotone, and grows by three roundings
+(`g3`) per proper step. Then every pair `(T, σ̂)` in the trace satisfies
+`|σ̂ − σ(T)| ≤ sigBound N N² Δ Emax`, where `Δ` bounds the distance of the exact class means. (The
+instantiation `E t = u·Fn·(1 + 4·#steps)`, `Δ = hi − lo` is `C16_otsu_rounded_near_optimal`.) -/
+theorem C16_otsu_rounded_sigma_error {rnd : ℚ → ℚ} (hr : Rounding rnd) (hist : List Nat) (N Fn : ℕ)
+    (hN : N = nBOf hist (hist.length - 1)) (hF : Fn = sBOf hist (hist.length - 1))
+    (hNN : N * N ≤ 2 ^ 53) (hFF : Fn ≤ 2 ^ 53) (Δ Emax : ℚ) (E : ℕ → ℚ)
+    (hEmono : ∀ t, E t ≤ E (t + 1)) (hEmax : ∀ t, t < hist.length → E t ≤ Emax)
+    (hEstep : ∀ T, 1 ≤ T → T < hist.length → nBOf hist T ≠ 0 → nOOf hist T ≠ 0 →
+      g3 (Fn : ℚ) (E (T - 1)) ≤ E T)
+    (hΔ : ∀ T, T < hist.length → nBOf hist T ≠ 0 → nOOf hist T ≠ 0 →
+      |(sBOf hist T : ℚ) / (nBOf hist T : ℚ) -
+        ((Fn - sBOf hist T : ℕ) : ℚ) / (nOOf hist T : ℚ)| ≤ Δ)
+    (muB muO : ℚ)
+    (hB : |muB * (nBOf hist 0 : ℚ) - (sBOf hist 0 : ℚ)| ≤ E 0)
+    (hO : |muO * (nOOf hist 0 : ℚ) - ((Fn - sBOf hist 0 : ℕ) : ℚ)| ≤ E 0) :
+    ∀ p ∈ otsuTrace (α := Rd rnd) (rdCast rnd) (hOf hist) (nBOf hist) (nOOf hist)
+        (List.range' 1 (hist.length - 1)) muB muO,
+      |Rd.val rnd p.2 - otsuSigma hist p.1| ≤ sigBound (N : ℚ) ((N : ℚ) * (N : ℚ)) Δ Emax := by
+  by_cases hn : hist.length = 0
+  · intro p hp; rw [hn] at hp; simp [otsuTrace] at hp
+  · exact otsuTrace_rd hr hist N Fn hN hF hNN hFF Δ Emax E hEmono hEmax hEstep hΔ (hist.length - 1) 1
+      muB muO (le_refl 1) (by omega) hB hO
+
+/-- **otsu in rounded (binary64) arithmetic is optimal up to an explicit margin — the guarded
+comparison of the check is sound.** For every image, either `ignore_zeros`, and ANY `Rounding`
+(`rne53` = IEEE binary64 round-to-nearest-even is one: `C16_otsu_binary64_margin`): if the histogram
+has an occupied bin, at most 2^32 bins, `N² ≤ 2^53` counted pixels and first moment `≤ 2^53`, then
+the threshold `Tr` returned by the model run in rounded arithmetic lies inside the histogram and its
+EXACT between-class variance is within `otsuMargin hist = 2·otsuErrBound N Fn lo hi` of the exact
+maximum, for every competitor `T`. In the form the check evaluates (`smax`, `sgot` printed by the
+driver from `sigmaAll`): `0 ≤ smax − sgot ≤ otsuMargin hist`. So a returned threshold that is not an
+exact maximiser but within the margin is explained by rounding ("near-tie, not judged"), and one
+outside the margin cannot be produced by the model in binary64 arithmetic. The bound is explicit
+(`C16_otsu_margin_explicit`), leading term `16·2^-53·(hi−lo)²·Fn·N`. -/
+theorem C16_otsu_rounded_near_optimal {rnd : ℚ → ℚ} (hr : Rounding rnd) (img : List Nat)
+    (ignoreZeros : Bool) (hne : ∃ v ∈ histOf img ignoreZeros, v ≠ 0)
+    (hlen : (histOf img ignoreZeros).length ≤ 2 ^ 32)
+    (hNN : nBOf (histOf img ignoreZeros) ((histOf img ignoreZeros).length - 1) *
+      nBOf (histOf img ignoreZeros) ((histOf img ignoreZeros).length - 1) ≤ 2 ^ 53)
+    (hFF : sBOf (histOf img ignoreZeros) ((histOf img ignoreZeros).length - 1) ≤ 2 ^ 53) :
+    let hist := histOf img ignoreZeros
+    let Tr := otsuImg (α := Rd rnd) (rdCast rnd) img ignoreZeros
+    Tr < hist.length ∧
+    (∀ T, T < hist.length → otsuSigma hist T - otsuMargin hist ≤ otsuSigma hist Tr) ∧
+    0 ≤ listMax (sigmaAll hist) - (sigmaAll hist).getD Tr (-1) ∧
+    listMax (sigmaAll hist) - (sigmaAll hist).getD Tr (-1) ≤ otsuMargin hist := by
+  intro hist Tr
+  obtain ⟨h1, h2, h3⟩ := otsu_margin_sound hr hist hne hlen hNN hFF
+  exact ⟨h1, otsuGen_rd_near_optimal hr hist hne hlen hNN hFF, h2, h3⟩
+
+/-- The same for IEEE binary64 round-to-nearest-even (`rne53` of `Proofs/C05Binary64.lean`, exponent
+range unbounded): `0 ≤ smax − sgot ≤ otsuMargin hist` for the threshold computed in doubles. -/
+theorem C16_otsu_binary64_margin (img : List Nat) (ignoreZeros : Bool)
+    (hne : ∃ v ∈ histOf img ignoreZeros, v ≠ 0)
+    (hlen : (histOf img ignoreZeros).length ≤ 2 ^ 32)
+    (hNN : nBOf (histOf img ignoreZeros) ((histOf img ignoreZeros).length - 1) *
+      nBOf (histOf img ignoreZeros) ((histOf img ignoreZeros).length - 1) ≤ 2 ^ 53)
+    (hFF : sBOf (histOf img ignoreZeros) ((histOf img ignoreZeros).length - 1) ≤ 2 ^ 53) :
+    let hist := histOf img ignoreZeros
+    let Tr := otsuImg (α := Rd rne53) (rdCast rne53) img ignoreZeros
+    Tr < hist.length ∧
+    0 ≤ listMax (sigmaAll hist) - (sigmaAll hist).getD Tr (-1) ∧
+    listMax (sigmaAll hist) - (sigmaAll hist).getD Tr (-1) ≤ otsuMargin hist := by
+  intro hist Tr
+  obtain ⟨h1, _, h3, h4⟩ := C16_otsu_rounded_near_optimal rne53_rounding img ignoreZeros hne hlen hNN hFF
+  exact ⟨h1, h3, h4⟩
+
+/-- **The margin, written out.** With `u = 2^-53`, `N` the number of counted pixels, `Fn = Σ i·h[i]`,
+`Δ = hi − lo` (largest minus smallest occupied level), `E = u·Fn·(1 + 4Δ)` (accuracy of the running
+means after at most `Δ` proper steps of three roundings each) and `η = 2(1+u)E + uΔ` (accuracy of
+`μ_B − μ_O`): `otsuMargin = 2·[((1+u)·E·N + u·N²·Δ)·(2Δ + η) + (2u + u²)·N²·(Δ + η)²]`, and it is
+non-negative. -/
+theorem C16_otsu_margin_explicit (hist : List Nat) :
+    let N : ℚ := (nBOf hist (hist.length - 1) : ℚ)
+    let Fn : ℚ := (sBOf hist (hist.length - 1) : ℚ)
+    let Δ : ℚ := ((lastNonzero hist - loOf hist : ℕ) : ℚ)
+    let u : ℚ := 1 / 2 ^ 53
+    let E : ℚ := u * Fn * (1 + 4 * Δ)
+    let η : ℚ := (1 + u) * (2 * E) + u * Δ
+    otsuMargin hist = 2 * (((1 + u) * (E * N) + u * (N * N * Δ)) * (2 * Δ + η) +
+      (2 * u + u * u) * (N * N * ((Δ + η) * (Δ + η)))) ∧ 0 ≤ otsuMargin hist := by
+  intro N Fn Δ u E η
+  refine ⟨?_, ?_⟩
+  · rw [otsuMargin_eq]
+    unfold otsuErrBound sigBound etaMax
+    rw [u53_eq]
+  · rw [otsuMargin_eq]
+    have := otsuErrBound_nonneg (nBOf hist (hist.length - 1)) (sBOf hist (hist.length - 1))
+      (loOf hist) (lastNonzero hist)
+    linarith
+
+/-- **rc in rounded (binary64) arithmetic follows the stopping rule on the rounded midpoints.** For
+ANY `Rounding` (binary64 `rne53` included), every image with an occupied bin, at most 2^53 bins,
+pixels and first moment: the model of `rc` run in rounded arithmetic returns the single level when only
+one is occupied, otherwise `m̂(ts)` for the first `ts ∈ [lo, hi)` with `m̂(ts) ≤ ts + 1` (or
+`ts = hi − 1`), where `m̂(t) = rcMidR` is the midpoint as the loop body computes it — four roundings
+applied to exact integer sums — and every `m̂(t)` is within `4·2^-53` RELATIVE of the exact midpoint
+`m(t)` (no accumulation: each midpoint is computed afresh). -/
+theorem C16_rc_rounded_rule {rnd : ℚ → ℚ} (hr : Rounding rnd) (img : List Nat) (ignoreZeros : Bool)
+    (hne : ∃ v ∈ histOf img ignoreZeros, v ≠ 0)
+    (hlen : (histOf img ignoreZeros).length ≤ 2 ^ 53)
+    (hN : nBOf (histOf img ignoreZeros) ((histOf img ignoreZeros).length - 1) ≤ 2 ^ 53)
+    (hF : sBOf (histOf img ignoreZeros) ((histOf img ignoreZeros).length - 1) ≤ 2 ^ 53) :
+    let hist := histOf img ignoreZeros
+    let r := Rd.val rnd (rcGen (α := Rd rnd) (rdCast rnd) hist)
+    let lo := loOf hist
+    let hi := lastNonzero hist
+    (lo = hi → r = (hi : ℚ)) ∧
+    (lo < hi → ∃ ts, lo ≤ ts ∧ ts < hi ∧ r = rcMidR rnd hist ts ∧
+      (rcMidR rnd hist ts ≤ (ts : ℚ) + 1 ∨ ts + 1 = hi) ∧
+      ∀ t, lo ≤ t → t < ts → (t : ℚ) + 1 < rcMidR rnd hist t) ∧
+    (∀ t, |rcMidR rnd hist t - rcMid hist t| ≤ 4 * u53 * rcMid hist t) := by
+  intro hist r lo hi
+  have h := rcGenR_spec hr hist hne hlen hN hF
+  exact ⟨h.1, h.2, fun t => rcMidR_err hr hist t⟩
+
+/-- **The guarded comparison of `rc` in the check is sound.** Same hypotheses, at most 2^20 grey
+levels. If every comparison `m(t) ≤ t + 1` that the EXACT rule makes (all `t` from `lo` up to and
+including the exact stopping level) is decided with a margin above `1e-9` — the check's "judged"
+cases: its margin test is `min_t |m(t) − (t+1)| > 1e-9·max(1,|exact|)` — then the value computed in
+rounded arithmetic stops at the same level and differs from the exact one by at most
+`4·2^-53·exact ≤ 1e-12·exact`, the tolerance the check applies. Contrapositive: a binary64 result
+outside the tolerance is only possible when the margin is below `1e-9` ("near-tie, not judged"). -/
+theorem C16_rc_rounded_close {rnd : ℚ → ℚ} (hr : Rounding rnd) (img : List Nat) (ignoreZeros : Bool)
+    (hne : ∃ v ∈ histOf img ignoreZeros, v ≠ 0)
+    (hlen : (histOf img ignoreZeros).length ≤ 2 ^ 20)
+    (hN : nBOf (histOf img ignoreZeros) ((histOf img ignoreZeros).length - 1) ≤ 2 ^ 53)
+    (hF : sBOf (histOf img ignoreZeros) ((histOf img ignoreZeros).length - 1) ≤ 2 ^ 53)
+    (hmargin : ∀ t, loOf (histOf img ignoreZeros) ≤ t → t < lastNonzero (histOf img ignoreZeros) →
+      (∀ s, loOf (histOf img ignoreZeros) ≤ s → s < t → (s : ℚ) + 1 < rcMid (histOf img ignoreZeros) s) →
+      1 / 10 ^ 9 < |rcMid (histOf img ignoreZeros) t - ((t : ℚ) + 1)|) :
+    let hist := histOf img ignoreZeros
+    let r := rcGen ratCast hist
+    let rr := Rd.val rnd (rcGen (α := Rd rnd) (rdCast rnd) hist)
+    |rr - r| ≤ 4 * u53 * r ∧ 4 * u53 * r ≤ r / 10 ^ 12 ∧ 0 ≤ r := by
+  intro hist r rr
+  have hhn := hi_lt_length hist hne
+  have hlen' : hist.length ≤ 2 ^ 20 := hlen
+  have hr0 : 0 ≤ r := by
+    have := (rcGen_main hist hne).2.2.1
+    exact le_trans (by positivity) this
+  have hclose := rcGenR_close hr hist hne (le_trans hlen (by norm_num)) hN hF (fun t h1 h2 h3 => by
+    have hb := (rcMid_bounds hist hne h1 h2).2
+    have ht : (t : ℚ) ≤ (lastNonzero hist : ℚ) := by exact_mod_cast (show t ≤ lastNonzero hist by omega)
+    have hh : (lastNonzero hist : ℚ) ≤ 2 ^ 20 := by
+      have : lastNonzero hist ≤ 2 ^ 20 := by omega
+      exact_mod_cast this
+    have hm := hmargin t h1 h2 h3
+    refine lt_of_le_of_lt ?_ hm
+    have : rcMid hist t ≤ 2 ^ 20 := by linarith
+    unfold u53
+    nlinarith)
+  refine ⟨hclose, ?_, hr0⟩
+  unfold u53
+  nlinarith
+
+/-- **otsu on degenerate images, every arithmetic instance.** If every pixel — every NON-ZERO pixel
+when zeros are ignored — has the same level `v` (constant images, all-zero images with either
+setting, zeros plus one other level with `ignore_zeros`, one-pixel images, the empty pixel list) the
+model of `otsu` returns 0 whatever the arithmetic (`Float`, exact, rounded): the histogram has one
+bin, or no pixel above level 0, or the loop `continue`s up to the occupied level and `break`s there. -/
+theorem C16_otsu_single_level {α : Type} [Add α] [Sub α] [Mul α] [Div α] [LT α] [DecidableLT α]
+    (cast : Nat → α) (img : List Nat) (ignoreZeros : Bool) (v : Nat)
+    (hall : ∀ p ∈ img, p = v ∨ (ignoreZeros = true ∧ p = 0)) : otsuImg cast img ignoreZeros = 0 :=
+  otsuImg_single_level cast img ignoreZeros v hall
+
+/-- `otsu(img, ignore_zeros=True)` of an image without non-zero pixel is 0, for every arithmetic
+instance (special case of `C16_otsu_single_level`). -/
+theorem C16_otsu_all_zero_ignore_zeros {α : Type} [Add α] [Sub α] [Mul α] [Div α] [LT α] [DecidableLT α]
+    (cast : Nat → α) (img : List Nat) (hz : ∀ p ∈ img, p = 0) : otsuImg cast img true = 0 :=
+  otsuImg_single_level cast img true 0 (fun p hp => Or.inl (hz p hp))
+
+/-- **rc on a single-level image is that level, every arithmetic instance.** If every counted pixel
+has level `v`, some pixel has it, and `v ≠ 0` when zeros are ignored, the model of `rc` returns
+`cast v` — whatever the arithmetic's `<` says in the loop guard `t < res`, because the lower class is
+empty below `v` and the update is skipped. (With `ignore_zeros` and no non-zero pixel the result is
+`cast 0`: `C16_rc_ignore_zeros`.) -/
+theorem C16_rc_single_level {α : Type} [Add α] [Sub α] [Mul α] [Div α] [LT α] [DecidableLT α]
+    (cast : Nat → α) (img : List Nat) (ignoreZeros : Bool) (v : Nat)
+    (hv : v ∈ img) (hz : ignoreZeros = true → v ≠ 0)
+    (hall : ∀ p ∈ img, p = v ∨ (ignoreZeros = true ∧ p = 0)) : rcImg cast img ignoreZeros = cast v :=
+  rcImg_single_level cast img ignoreZeros v hv hz hall
+
+/-- **Support of `circle_se(r)`** (the element `bernsen(f, r, …)` hands to `gbernsen`; the driver now
+builds it with `circleSe` instead of trusting the implementation's): a `(2r+1)×(2r+1)` row-major
+array whose entry `(i, j)` is 1 exactly when `(i − r)² + (j − r)² < r²` — STRICT, as in `morph.py` —
+so the centre is set for `r ≥ 1` while the first/last row and column never are (`circle_se(1)` is the
+single centre pixel). -/
+theorem C16_circle_se_spec (r : Nat) :
+    (circleSe r).length = (2 * r + 1) * (2 * r + 1) ∧
+    (∀ i j, i ≤ 2 * r → j ≤ 2 * r → (circleSe r).getD (i * (2 * r + 1) + j) 0 =
+      if ((i : Int) - r) * ((i : Int) - r) + ((j : Int) - r) * ((j : Int) - r) < (r : Int) * r then 1 else 0) ∧
+    (1 ≤ r → (circleSe r).getD (r * (2 * r + 1) + r) 0 = 1 ∧
+      (∀ j, j ≤ 2 * r → (circleSe r).getD (0 * (2 * r + 1) + j) 0 = 0) ∧
+      (∀ j, j ≤ 2 * r → (circleSe r).getD (2 * r * (2 * r + 1) + j) 0 = 0) ∧
+      (∀ i, i ≤ 2 * r → (circleSe r).getD (i * (2 * r + 1) + 0) 0 = 0) ∧
+      (∀ i, i ≤ 2 * r → (circleSe r).getD (i * (2 * r + 1) + 2 * r) 0 = 0)) :=
+  ⟨circleSe_length r, fun i j hi hj => circleSe_spec r i j hi hj, circleSe_centre_and_rim r⟩
+
 /-! ### non-vacuity -/
 
 example : softGen (0 : Int) 5 2 = 3 ∧ softGen (0 : Int) (-5) 2 = -3 ∧ softGen (0 : Int) 2 2 = 0 := by decide
@@ -216,3 +449,26 @@ example : histOf [0, 0, 3, 3, 5] true = [0, 0, 0, 2, 0, 1] ∧ histOf [3, 3, 5] 
     histOf [0, 0] true = [0] ∧ histOf [] false = [0] := by decide
 example : loOf (histOf [5, 2, 2, 7] false) = 2 ∧ lastNonzero (histOf [5, 2, 2, 7] false) = 7 ∧
     (∃ v ∈ histOf [5, 2, 2, 7] false, v ≠ 0) := by decide
+
+-- round 4
+example : Rounding rne53 := rne53_rounding
+example : Rounding (id : ℚ → ℚ) :=
+  ⟨fun _ _ h => h, fun x => by simp only [id, sub_self, abs_zero]; positivity, fun _ _ => rfl⟩
+example : 2 ≤ (histOf [5, 2, 2, 7] false).length ∧ sumL ((histOf [5, 2, 2, 7] false).drop 1) ≠ 0 := by decide
+example : ∃ s, (1, s) ∈ otsuTraceOf ratCast [1, 2, 0, 1] :=
+  (C16_otsu_sigma_stepwise [1, 2, 0, 1] (by decide) (by decide)).2.2.2 1 (by decide) (by decide)
+    (by decide) (by decide)
+example : (histOf [5, 2, 2, 7] false).length ≤ 2 ^ 32 ∧
+    nBOf (histOf [5, 2, 2, 7] false) ((histOf [5, 2, 2, 7] false).length - 1) *
+      nBOf (histOf [5, 2, 2, 7] false) ((histOf [5, 2, 2, 7] false).length - 1) ≤ 2 ^ 53 ∧
+    sBOf (histOf [5, 2, 2, 7] false) ((histOf [5, 2, 2, 7] false).length - 1) ≤ 2 ^ 53 := by decide
+example : circleSe 1 = [0, 0, 0, 0, 1, 0, 0, 0, 0] := by decide
+example : otsuImg floatCast [7, 7, 7] false = 0 ∧ otsuImg ratCast [0, 0, 5, 5] true = 0 :=
+  ⟨C16_otsu_single_level _ _ _ 7 (by simp), C16_otsu_single_level _ _ _ 5 (by simp)⟩
+example : rcImg ratCast [0, 0, 5, 5] true = 5 :=
+  C16_rc_single_level ratCast [0, 0, 5, 5] true 5 (by simp) (by simp) (by simp)
+example : (histOf [5, 2, 2, 7] false).length ≤ 2 ^ 20 ∧
+    ∀ t, loOf (histOf [5, 2, 2, 7] false) ≤ t → t < lastNonzero (histOf [5, 2, 2, 7] false) → t < 8 := by
+  refine ⟨by decide, fun t _ h => ?_⟩
+  have : lastNonzero (histOf [5, 2, 2, 7] false) = 7 := by decide
+  omega
